@@ -61,6 +61,13 @@ func (fv *FuncVerifier) execStmt(st *State, s ast.Stmt) {
 		if cls, ok := fv.contract.BeforeLets[key]; ok {
 			fv.bindLets(st, cls, s.Pos())
 		}
+		if cls, ok := fv.contract.Befores[key]; ok {
+			fv.siteAsserts(st, "before", key, cls, s.Pos())
+		}
+		if cls, ok := fv.contract.Asserts[key]; ok {
+			// registered first, so it runs after the let bindings registered below (defers run last-in first-out)
+			defer func() { fv.siteAsserts(st, "after", key, cls, s.End()) }()
+		}
 		if cls, ok := fv.contract.AfterLets[key]; ok {
 			defer func() { fv.bindLets(st, cls, s.End()) }()
 		}
@@ -1052,8 +1059,16 @@ func (fv *FuncVerifier) execLoop(st *State, lp *loopParts) {
 	fv.loops = append(fv.loops, lc2)
 	lp.body(bodySt)
 	fv.loops = fv.loops[:len(fv.loops)-1]
-	endSt := fv.merge(append([]*State{bodySt}, lc2.conts...))
-	if !endSt.dead {
+	// the states that reach the loop head again: the end of the body and every continue. Normally they are merged
+	// and the invariants checked once; with "flag splitinv" each is checked on its own (smaller queries).
+	ends := []*State{fv.merge(append([]*State{bodySt}, lc2.conts...))}
+	if fv.contract != nil && fv.contract.Flags["splitinv"] != "" {
+		ends = append([]*State{bodySt}, lc2.conts...)
+	}
+	for _, endSt := range ends {
+		if endSt == nil || endSt.dead {
+			continue
+		}
 		lp.post(endSt)
 		if spec != nil {
 			for i, inv := range spec.Invariants {
@@ -1150,6 +1165,24 @@ func copyIntMap(m map[string]int) map[string]int {
 	return out
 }
 
+// siteAsserts proves (and then assumes) assertions attached to a statement site.
+func (fv *FuncVerifier) siteAsserts(st *State, when, key string, cls []Clause, pos token.Pos) {
+	if st.dead {
+		return
+	}
+	var errs []string
+	for i, cl := range cls {
+		g := fv.ownEnvAt(st, &errs, pos).eval(cl.Expr)
+		fv.oblige(st, "assert", fmt.Sprintf("%s %s [%s] %s", when, key, clauseName(cl, i), cl.Text), g.T)
+		if !cl.NoAssume {
+			fv.assume(st, g.T)
+		}
+	}
+	if len(errs) > 0 {
+		fv.unsupported("spec errors in assert at " + key + ": " + strings.Join(errs, "; "))
+	}
+}
+
 // bindLets evaluates ghost snapshots ("before/after callee#k let name = expr") in the current state and binds
 // them as ghost locals (merged like program variables), readable by name in later contract clauses.
 func (fv *FuncVerifier) bindLets(st *State, cls []Clause, pos token.Pos) {
@@ -1164,6 +1197,10 @@ func (fv *FuncVerifier) bindLets(st *State, cls []Clause, pos token.Pos) {
 			ty = types.Typ[types.Int]
 			if g.Sort == "Bool" {
 				ty = types.Typ[types.Bool]
+			}
+			if g.Sort == "(Array Int Int)" {
+				// ghost sequence: carried as an (unbounded) array of int so that merges and loop havoc keep its sort
+				ty = types.NewArray(types.Typ[types.Int], 1<<40)
 			}
 		}
 		if fv.letVars == nil {
